@@ -332,7 +332,7 @@ META = dict(
         "symbolic tensor contents with enumerated lengths: cutting back each row returns the original cells, padding cells hold the pad value, ids stay "
         "attached, sort order respected."),
     bounds=dict(quick="sampler: n=5 indices, 2 buckets, sizes 1..3, drop on/off; params: n=4, lengths 1..3, 2 buckets, batch 1..2; collation: 3 utterances, lengths <=3",
-                thorough="sampler: n=6, 3 buckets, sizes 1..3; params: n=5, lengths 1..4, 2..3 buckets; collation: all length triples <=3"),
+                thorough="sampler: n=6 with 2 buckets (sizes 1..3) and n=4 with 3 buckets (sizes 1..2); params: n=5, lengths 1..4, 2..3 buckets; collation: all length triples <=3"),
     assumptions=["the underlying sampler order is 0..n-1 w.l.o.g. (indices are only dictionary keys)", "tensor lengths concrete (enumerated), contents symbolic",
                  "warnings emitted by the bucket parameter function are ignored"],
     outside=["torch.utils.data.DataLoader iteration with worker processes and on-disk data sets", "identical batches for identical (seed, epoch): inherited from C13 plus determinism of the above"],
@@ -345,7 +345,9 @@ def tasks(tier):
     ts = []
     q = tier == "quick"
     for drop in (False, True):
-        ts.append(task(PROP, M_, "BucketSamplerH", n=5 if q else 6, B=2 if q else 3, smax=3, drop=drop, nvalidate=1))
+        ts.append(task(PROP, M_, "BucketSamplerH", n=5 if q else 6, B=2, smax=3, drop=drop, nvalidate=1))
+        if not q:
+            ts.append(task(PROP, M_, "BucketSamplerH", n=4, B=3, smax=2, drop=drop, nvalidate=1))
         ts.append(task(PROP, M_, "BucketSamplerH", n=4 if q else 5, B=2, smax=2 if q else 3, drop=drop, rot=True, passes=2 if q else 3, nvalidate=1))
     for dyn in (False, True):
         for nbk, bsz in ((2, 1), (2, 2)) if q else ((2, 1), (2, 2), (3, 1), (3, 2)):
